@@ -9,8 +9,11 @@ PARTIAL by design (DESIGN.md §3 C18).  Three parts, kept apart in the evidence:
      lockset discipline; callbacks; stop sequencing) + the shutdown state machine theorems.
  (C) dynamic validation — NOT a proof —: ThreadSanitizer build of the library + harness/h_thr.c,
      M client threads x {select,poll,epoll} x {1 thread, pool of 4, thread-per-connection}, concurrent
-     MHD_add_connection, cross-thread resume, shared responses, digest auth on an 8-slot nonce table,
-     MHD_stop_daemon under load with a watchdog.  Every TSan report is classified against the table:
+     MHD_add_connection (from every client thread), cross-thread resume, responses shared by all connections
+     (static buffer, content-reader callback, file descriptor), digest auth on an 8-slot nonce table (wrong and
+     right answers), per-IP accounting with up to 32 client addresses, MHD_stop_daemon under load with a
+     watchdog; deterministic scenarios "pinadd", "quietresume" and "stagger" (thread-per-connection stop with
+     busy handlers released in all 6 orders: every thread joined, one closed notification each, no library panic).  Every TSan report is classified against the table:
      a data race whose two racing locations are accesses to a field of the *benign set* (the very list
      `benignFields` of lean/Mhd/Model/Locks.lean, parsed from that file) is counted and tolerated;
      anything else (race on another field, race at a location the table does not know, lock-order
@@ -28,7 +31,7 @@ TSAN_FLAGS = ["-fsanitize=thread", "-fno-omit-frame-pointer"]
 HARNESS = "h_thr"
 COMBOS = [("select", "1"), ("select", "4"), ("poll", "1"), ("poll", "4"), ("epoll", "1"), ("epoll", "4"),
           ("select", "tpc"), ("poll", "tpc")]
-FEATURES = "listen,add,susp,auth,cb,post,opt,abort"
+FEATURES = "listen,add,susp,auth,cb,post,opt,abort,fd,ips"
 TSAN_OPTIONS = "halt_on_error=0 exitcode=66 second_deadlock_stack=1 report_signal_unsafe=0 history_size=7"
 
 # mirror of lean/Mhd/Model/Locks.lean (diagnostics only; the Lean theorems are the authority)
@@ -151,7 +154,18 @@ class Table:
                     flag_unpaired.append("%s:%d %s writes daemon->have_new without new_connections_mutex" % (fi.file, e["line"], n))
         resume_bad = ["%s:%d result of resume_suspended_connections() does not reach the wait timeout" % (self.world.defs[a].file, b)
                       for a, b, tpc, feeds in self.world.resume_sites if not tpc and not feeds]
-        return {"have_new_unpaired": flag_unpaired, "resume_result_discarded": resume_bad,
+        PINNED = {("close_all_connections", "susp_list")}
+        loops = getattr(self.world, "unlock_loops", [])
+        cursor_bad = ["%s:%d %s: loop over %s releases %s in its body and continues from %s" % (
+            self.world.defs[fn].file, line, fn, lst, lk_, {"carriedValue": "a list position read before the unlock",
+                                                           "freshLinkOfCarriedNode": "a link of a node pointer carried across the unlock"}[kind])
+            for fn, line, lk_, lst, kind in loops
+            if kind != "rereadHead" and not (kind == "freshLinkOfCarriedNode" and (fn, lst) in PINNED)]
+        for need in (("close_all_connections", "conn_list"), ("MHD_cleanup_connections", "cleanup_list")):
+            if not any((fn, lst) == need for fn, _l, _k, lst, _kind in loops):
+                cursor_bad.append("%s: the loop over %s that releases the mutex around the join was not found" % need)
+        return {"unlock_loops": ["%s:%d %s %s %s" % x for x in loops], "cursor_carried": cursor_bad,
+                "have_new_unpaired": flag_unpaired, "resume_result_discarded": resume_bad,
                 "resume_wait_sites": ["%s:%d tpcOnly=%s feeds=%s" % x for x in self.world.resume_sites],
                 "lock_order_edges": sorted("%s -> %s  (%s)" % (a, b, edge_sites[(a, b)]) for a in edges for b in edges[a]),
                 "lock_order_cycles": [" -> ".join(c) for c in cyc],
@@ -238,14 +252,21 @@ class Spec:
                          "Mhd.C18.callbacks_unlocked", "Mhd.C18.have_new_paired", "Mhd.C18.resume_forces_zero_timeout", "Mhd.C18.stop_sequence", "Mhd.C18.stop_invariant",
                          "Mhd.C18.stop_progress", "Mhd.C18.stop_bounded", "Mhd.C18.stop_final",
                          "Mhd.C18.notified_at_most_once", "Mhd.C18.tpc_stop_terminates",
-                         "Mhd.C18.tpc_stop_unfixed_witness"]
+                         "Mhd.C18.tpc_stop_unfixed_witness", "Mhd.C18.per_ip_and_nonce_under_mutex",
+                         "Mhd.C18.cursor_not_carried_across_unlock", "Mhd.C18.tpc_join_every_thread",
+                         "Mhd.C18.tpc_join_carried_cursor_witness"]
     trusted_base = ["Lean 4 kernel; axioms propext / Classical.choice / Quot.sound at most (audited per theorem)",
                     "tools/locktable.py: that the table (held-lock sets along structured paths, guarded lock/unlock "
                     "pairs matched by condition text, a guarded unlock of a caller's lock taken to release it whenever held, return-value-sensitive callee summaries, thread roles from @remark / "
                     "mhd_assert / thread mains / external-loop API list) is a sound abstraction of the C code — validated "
                     "dynamically by TSan, not proved",
                     "hand-written sets in lean/Mhd/Model/Locks.lean: designated mutex per field, benign set, "
-                    "fresh-object exceptions, hand-over functions",
+                    "fresh-object exceptions, hand-over functions; lean/Mhd/Model/LocksJoin.lean: pinnedNodeLoop (the walk over "
+                    "the suspended list of upgraded TLS connections may keep its node across the join: those threads never unlink "
+                    "their connection)",
+                    "join-loop model lean/Mhd/Model/LocksJoin.lean (hand-written; its iteration discipline is the regenerated "
+                    "`unlockLoops` fact — cursor data flow over the loop body in the AST; tied to the code by the 'stagger' scenario); "
+                    "assumption: every connection thread ends after the shutdown was signalled (join returns)",
                     "shutdown state machine lean/Mhd/Model/LocksStop.lean (hand-written; tied to the source by "
                     "stop_sequence over the regenerated table and by the watchdog / notification accounting of the stress run)",
                     "clang-14 AST, gcc -fsanitize=thread, harness/h_thr.c"]
@@ -323,10 +344,28 @@ class Spec:
             st["skipped"] += 1
             return
         for k in ("req_ok", "conn_add", "conn_tcp", "susp", "resume", "auth_chk", "cb_blocks", "post", "opt", "abort",
-                  "handler", "completed", "conn_started", "conn_closed"):
+                  "handler", "completed", "conn_started", "conn_closed", "fd", "auth_ok", "auth_stale", "auth_respwrong",
+                  "auth_noncewrong", "auth_ok_sent", "ip_bind_fail", "body_mismatch", "stagger_runs", "stagger_conns", "stagger_closed_once"):
             st[k] += int(res.get(k, 0) or 0)
         if "stop_ms" in res:
             st["stop_ms_max"] = max(st["stop_ms_max"], int(res["stop_ms"]))
+            if not res.get("watchdog") and not res.get("panic") == "1":
+                st["stops_returned"] += 1
+        if "ip_addrs" in res:
+            st["ip_addrs_max"] = max(st["ip_addrs_max"], int(res["ip_addrs"]))
+        if "stagger_stop_ms_max" in res:
+            st["stagger_stop_ms_max"] = max(st["stagger_stop_ms_max"], int(res["stagger_stop_ms_max"]))
+        stag = res.get("scenario") == "stagger" or (res.get("stagger") or "-") != "-"
+        if res.get("panic") == "1" or rc == 5:
+            st["panic"] += 1
+            failures.append(vlib.Failure("oracle", "stop: library panic %s%s pool=%s" % (
+                re.sub(r"[_.]+$", "", res.get("panic_reason", "?")), " during MHD_stop_daemon" if res.get("stop_begin") == "1" else "", pool),
+                "MHD_PANIC (daemon.c:%s %s) %s: the process would abort, MHD_stop_daemon() does not return and the remaining connections get no "
+                "closed notification.  mode=%s pool=%s scenario=%s %s\n%s" % (
+                    res.get("panic_line"), res.get("panic_reason"),
+                    "while stopping a thread-per-connection daemon whose busy handlers finish at staggered times" if stag else "",
+                    mode, pool, res.get("stagger"), json.dumps(res), run["stderr"][-800:]), inp, "locks"))
+            return
         if res.get("pinadd") in ("0", "1"):
             st["pinadd_runs"] += 1
         if res.get("pinadd") == "1":
@@ -347,6 +386,10 @@ class Spec:
                                          "MHD_stop_daemon() under load did not return within the watchdog limit: deadlock / "
                                          "livelock in the stop sequence.  mode=%s pool=%s\n%s" % (mode, pool, run["stderr"][-1500:]),
                                          inp, "locks"))
+        elif (rc == 4 or res.get("bad") == "1") and stag:
+            failures.append(vlib.Failure("oracle", "stop: staggered thread exits: a connection was not closed / notified exactly once pool=%s" % pool,
+                                         "scenario stagger (3 busy handlers released in every order after MHD_stop_daemon started): " + json.dumps(res) +
+                                         "\n" + run["stderr"][-800:], inp, "locks"))
         elif rc == 4 or res.get("bad") == "1":
             failures.append(vlib.Failure("oracle", "stop: notification accounting inconsistent pool=%s" % pool,
                                          "after MHD_stop_daemon: " + json.dumps(res), inp, "locks"))
@@ -382,6 +425,11 @@ class Spec:
                                          {"table": "lean/Mhd/Gen/Locks.lean", "cycle": c}, "locks"))
         for b in static["blocking_with_lock"][:5]:
             failures.append(vlib.Failure("diff", "locks: blocking call with a mutex possibly held", b, {"table": "lean/Mhd/Gen/Locks.lean", "site": b}, "locks"))
+        for x in static["cursor_carried"]:
+            failures.append(vlib.Failure("diff", "locks: list cursor carried across an unlock window: " + re.sub(r":\d+", ":N", x.split(":", 2)[-1].strip())[:90], x +
+                                         "\n(other threads move connections between the lists while the mutex is released; see "
+                                         "Mhd.C18.tpc_join_carried_cursor_witness for the history that leaves a thread unjoined)",
+                                         {"table": "lean/Mhd/Gen/Locks.lean", "site": x}, "locks"))
         for x in static["have_new_unpaired"]:
             failures.append(vlib.Failure("diff", "locks: have_new written outside the critical section of the hand-over list", x,
                                          {"table": "lean/Mhd/Gen/Locks.lean", "site": x}, "locks"))
@@ -401,6 +449,10 @@ class Spec:
         if boost:
             seeds = seeds + [ctx.rng.randrange(1, 10 ** 6) for _ in range(len(seeds) + 1)]
         jobs = []
+        # deterministic: thread-per-connection stop with busy handlers released in all 6 orders x 2 list layouts
+        for mode in ("select", "poll"):
+            for k in range(3 if thorough else 1):
+                jobs.append((mode, "tpc", 0, 0, k + 1, "stagger"))
         # corpus first: configurations that exposed defects before
         cdir = os.path.join(vlib.VERIF, "corpus", "locks")
         ncorp = 0
@@ -426,20 +478,50 @@ class Spec:
             runs = list(ex.map(lambda j: self.run_one(*j), jobs))
         for r in runs:
             self.judge(r, failures, stats)
-        nontrivial = sum(1 for r in runs if int(r["res"].get("req_ok", 0) or 0) > 0 and "stop_ms" in r["res"])
+        nontrivial = sum(1 for r in runs if (int(r["res"].get("req_ok", 0) or 0) > 0 and "stop_ms" in r["res"]) or
+                         int(r["res"].get("stagger_closed_once", 0) or 0) > 0)
+        tot = collections.Counter()
+        for v in stats["modes"].values():
+            for k_, n_ in v.items():
+                if not k_.endswith("_max"):
+                    tot[k_] += n_
+        scen = {
+            "a_digest_auth_shared_nonce_table": {
+                "what": "MHD_digest_auth_check3 + MHD_queue_auth_required_response3 from every worker / connection thread on ONE 8-slot "
+                        "nonce table (nnc_lock); wrong and right answers; stale = slot taken over by another nonce (collision) or nc replay",
+                "checks": tot["auth_chk"], "ok": tot["auth_ok"], "stale_or_collision": tot["auth_stale"],
+                "response_wrong": tot["auth_respwrong"], "nonce_wrong": tot["auth_noncewrong"],
+                "threads": "pool of 4 workers / one thread per connection, %d client threads" % clients},
+            "b_shared_response_objects": {"callback_response_blocks": tot["cb_blocks"], "fd_response_replies": tot["fd"],
+                                          "static_response": "every other reply", "body_checksum_mismatches": tot["body_mismatch"]},
+            "c_add_connection_from_app_threads": {"MHD_add_connection_ok": tot["conn_add"], "calling_threads": clients,
+                                                  "accepted_tcp": tot["conn_tcp"], "pinadd_runs": tot["pinadd_runs"]},
+            "d_per_ip_accounting": {"distinct_client_addresses_max_per_run": max([v.get("ip_addrs_max", 0) for v in stats["modes"].values()] or [0]),
+                                    "connections_counted": tot["conn_started"], "bind_failures": tot["ip_bind_fail"]},
+            "e_stop_under_load": {k: {"stops_returned": v.get("stops_returned", 0), "stop_ms_max": v.get("stop_ms_max", 0)}
+                                  for k, v in stats["modes"].items()},
+            "stagger_tpc_stop": {"daemon_stops": tot["stagger_runs"], "connections": tot["stagger_conns"],
+                                 "closed_exactly_once": tot["stagger_closed_once"], "panics": tot["panic"],
+                                 "orders": "all 6 finishing orders of 3 busy handlers x {3 connections, 5 with idle ones in between} x {select, poll}"},
+            "tsan_reports_per_mode": {k: v.get("tsan_reports", 0) for k, v in stats["modes"].items()},
+        }
         cov = {"evaluations": len(runs), "distinct_nontrivial": nontrivial,
                "rule": "one evaluation = one TSan stress run (mode x threading x seed, %d client threads, %d ms of load, then "
                        "MHD_stop_daemon under load with a 10 s watchdog); non-trivial = served >= 1 request and the stop returned" % (clients, dur),
-               "samples": [" ".join(r["argv"]) + " -> " + " ".join("%s=%s" % (k, r["res"].get(k)) for k in ("stop_ms", "req_ok", "susp", "auth_chk", "conn_add", "conn_tcp"))
-                           for r in runs[:3]],
+               "samples": [" ".join(r["argv"]) + " -> " + " ".join("%s=%s" % (k, r["res"].get(k)) for k in ("stop_ms", "req_ok", "susp", "auth_chk", "conn_add", "conn_tcp", "fd", "ip_addrs", "stagger_runs", "stagger_closed_once")
+                                                                    if r["res"].get(k) is not None)
+                           for r in (runs[:1] + [r for r in runs if int(r["res"].get("req_ok", 0) or 0) > 0][:3])],
                "exhaustive": False, "corpus_runs": ncorp,
                "PROVED_by_lean_over_regenerated_table": {
                    "what": "context certificate; lock order ranked => no wait cycle / progress in the abstract thread model; no lock "
-                           "held at join/select/poll/epoll_wait; lockset discipline (partial, with witness); writes protected; callbacks; "
-                           "stop sequencing; shutdown state machine (invariant, progress, bound, clean end, notified once)",
+                           "held at join/select/poll/epoll_wait; lockset discipline (partial, with witness); writes protected; per-IP tree "
+                           "and nonce table under their mutex without exception; callbacks; stop sequencing; shutdown state machine "
+                           "(invariant, progress, bound, clean end, notified once); no list cursor carried across an unlock window => "
+                           "the thread-per-connection stop joins every thread under any interleaving of thread exits (+ witness)",
                    "table": {k: self.gen_info[k] for k in ("functions", "events", "edges", "rank", "seconds")},
                    "static_view": static},
                "OBSERVED_dynamically_not_proved": {
+                   "scenarios": scen,
                    "tsan_options": TSAN_OPTIONS, "stress_wall_s": round(time.time() - t0, 1),
                    "per_mode": {k: dict(v) for k, v in stats["modes"].items()},
                    "benign_reports_tolerated": dict(stats["benign"]),
